@@ -14,19 +14,38 @@ ID=${1:?usage: run.sh <ID> quick|thorough|--replay <path>}
 shift
 SCR=$(mktemp -d /dev/shm/verif-XXXXXX)
 trap 'rm -rf "$SCR"' EXIT
+# which engine binaries decide this property (some need both: sequential histories
+# by seqcheck, schedules by schedcheck; the second run folds the first one's
+# evidence in and the worse exit code wins)
 case "$ID" in
-  C04|C11|C12|C14|C16|TOY) BIN=schedcheck; LEVEL=3 ;;
-  *) BIN=seqcheck; LEVEL=1 ;;
+  C04|C11|C12|C14|C16|TOY) BINS="schedcheck" ;;
+  C17|C20) BINS="seqcheck schedcheck" ;;
+  *) BINS="seqcheck" ;;
 esac
-if [ -n "${VERIF_BIN:-}" ]; then BIN=$VERIF_BIN; fi
+if [ -n "${VERIF_BIN:-}" ]; then BINS=$VERIF_BIN; fi
+if [ "${1:-}" = "--replay" ]; then
+  # a replay file names its engine through the scenario it came from
+  if grep -q '"choices"' "${2:-/dev/null}" 2>/dev/null; then BINS="schedcheck"; else BINS=$(echo $BINS | cut -d' ' -f1); fi
+fi
 if [ ! -x $VERIF/bin/instr ] || [ $VERIF/instr/main.go -nt $VERIF/bin/instr ] || [ $VERIF/instr/l2.go -nt $VERIF/bin/instr ]; then
   (cd $VERIF/instr && go build -o $VERIF/bin/instr .) || { echo "TOOLING-ERROR: cannot build instr" >&2; exit 3; }
 fi
-$VERIF/bin/instr -repo /repo -verif $VERIF -out "$SCR/ov" -level $LEVEL || { echo "TOOLING-ERROR: instr failed" >&2; exit 3; }
-(cd $VERIF/harness && go build -overlay "$SCR/ov/overlay.json" -o "$SCR/$BIN" ./cmd/$BIN) 2> "$SCR/build.log"
-if [ $? -ne 0 ]; then
-  echo "TOOLING-ERROR: harness build failed against /repo's working tree (no verdict):" >&2
-  head -40 "$SCR/build.log" >&2
-  exit 3
-fi
-VERIF_SCRATCH="$SCR" "$SCR/$BIN" "$ID" "$@"
+RC=0
+N=0
+for BIN in $BINS; do
+  N=$((N+1))
+  if [ "$BIN" = schedcheck ]; then LEVEL=3; else LEVEL=1; fi
+  $VERIF/bin/instr -repo /repo -verif $VERIF -out "$SCR/ov$LEVEL" -level $LEVEL || { echo "TOOLING-ERROR: instr failed" >&2; exit 3; }
+  (cd $VERIF/harness && go build -overlay "$SCR/ov$LEVEL/overlay.json" -o "$SCR/$BIN" ./cmd/$BIN) 2> "$SCR/build.log"
+  if [ $? -ne 0 ]; then
+    echo "TOOLING-ERROR: harness build failed against /repo's working tree (no verdict):" >&2
+    head -40 "$SCR/build.log" >&2
+    exit 3
+  fi
+  if [ $N -gt 1 ]; then export VERIF_APPEND_EVIDENCE=1; fi
+  VERIF_SCRATCH="$SCR" "$SCR/$BIN" "$ID" "$@"
+  R=$?
+  if [ $R -gt $RC ]; then RC=$R; fi
+  if [ $R -eq 3 ]; then break; fi
+done
+exit $RC
